@@ -633,11 +633,33 @@ func (rg *ranger) lenOf(s ssa.Value, at *ssa.BasicBlock, depth int) (itv, bool) 
 		if str, ok := constString(x); ok {
 			return point(int64(len(str))), true
 		}
+	case *ssa.Phi:
+		if depth > 10 {
+			return itv{}, false
+		}
+		var r itv
+		first := true
+		for i, e := range x.Edges {
+			er, ok := rg.lenOf(e, x.Block().Preds[i], depth+1)
+			if !ok {
+				return itv{}, false
+			}
+			if first {
+				r, first = er.dropSym(), false
+			} else {
+				r = join(r, er.dropSym())
+			}
+		}
+		if !first {
+			return r, true
+		}
 	case *ssa.Call:
 		if callee := x.Call.StaticCallee(); callee != nil {
 			switch callee.String() {
 			case "strings.Split", "strings.SplitN", "bytes.Split":
 				return itv{lo: 1, hi: posInf, why: "strings.Split returns >= 1 element"}, true
+			case "(*github.com/Eyevinn/mp4ff/mp4.MdhdBox).GetLanguage":
+				return point(3), true // fmt.Sprintf("%c%c%c", ...) of three 5-bit values + 0x60: three ASCII bytes
 			case "encoding/hex.EncodeToString":
 				if ar, ok := rg.lenOf(x.Call.Args[0], at, depth+1); ok {
 					return itv{lo: satMul(ar.lo, 2), hi: satMul(ar.hi, 2), why: "hex.EncodeToString doubles the length"}, true
